@@ -72,3 +72,8 @@ pub fn token_config_update(
     use crate::states::token_config::TokenConfigExt;
     config.update(name, synthetic, token_decimals, builder, enable, init)
 }
+
+/// See `Store::update_last_restarted_slot`.
+pub fn store_update_last_restarted_slot(store: &mut Store, update: bool) -> Result<u64> {
+    store.update_last_restarted_slot(update)
+}
